@@ -22,6 +22,8 @@ META = {
 }
 
 MCLENS = [0, 1, 253, 254, 255, 256, 509, 510, 511]
+# file types the reading statement of each kind accepts (OPEN FOR INPUT / LOAD / BLOAD)
+WANT = {'D': ['D'], 'A': ['A', 'B', 'P'], 'B': ['A', 'B', 'P'], 'P': ['A', 'B', 'P'], 'M': ['M']}
 _FOUND = re.compile(br'^(.{8})\.(.) (Found|Skipped)\.\s*$')
 
 
@@ -165,8 +167,10 @@ class Tape(object):
         return e
 
     def read(self, name, kind, nbytes, fid=None):
-        """Open `name` for reading with the statement of its kind, read to the end; record messages and content runs."""
-        e = {'op': 'read', 'name': name, 'kind': kind, 'found': False, 'type': '', 'skipped': [], 'pieces': [], 'err': 0}
+        """Open `name` ('' = the nameless form: next file of a wanted type) for reading with the statement of its kind, read to
+        the end; record messages and content runs."""
+        e = {'op': 'read', 'name': name, 'kind': kind, 'found': False, 'type': '', 'skipped': [], 'pieces': [], 'err': 0,
+             'want': WANT[kind]}
         got = b''
         if kind == 'D':
             r = self.s.ex('OPEN "CAS1:%s" FOR INPUT AS 1' % name)
@@ -251,7 +255,7 @@ def chunks_for(rng, n, mode):
     return cs
 
 
-def session(ctx, fmt, files, events, rng, read_plan=None):
+def session(ctx, fmt, files, events, rng, read_plan=None, nameless=0):
     """files: list of (name, kind, n). Writes them, reopens the image, reads them back in tape order (read_plan: indices)."""
     t = Tape(ctx, fmt, events)
     try:
@@ -262,9 +266,15 @@ def session(ctx, fmt, files, events, rng, read_plan=None):
             written.append(e)
         t.reopen()
         plan = read_plan if read_plan is not None else range(len(files))
+        pos = 0
         for i in plan:
             name, kind, n = files[i]
+            # the nameless form (next file of a wanted type) when this file is the first such file ahead on the tape
+            first = next((j for j in range(pos, len(files)) if files[j][1] in WANT[kind]), None)
+            if nameless and first == i and rng.random() < nameless:
+                name = ''
             t.read(name, kind, written[i]['len'], i + 1)
+            pos = i + 1
     finally:
         t.close()
 
@@ -294,9 +304,9 @@ def run(ctx):
     events = []
     marks = []          # (event index of the newtape event, description)
 
-    def play(fmt, files, plan=None):
+    def play(fmt, files, plan=None, nameless=0):
         marks.append((len(events), fmt, files))
-        session(ctx, fmt, files, events, rng, plan)
+        session(ctx, fmt, files, events, rng, plan, nameless)
 
     def model_files(sn):
         return [('F%d' % f['id'], 'D', f['len']) for f in sn['files']]
@@ -383,14 +393,46 @@ def run(ctx):
             if first == i:
                 plan2.append(i)
                 pos = i + 1
-        play(fmt, files, plan2 or [0])
+        play(fmt, files, plan2 or [0], nameless=0.35)
     ctx.cov['random_sessions'] = nrand
+    # nameless reads on tapes of mixed kinds: each read asks for "the next file" with the statement of one kind class; the
+    # files of other kinds ahead of it must be skipped (round-2 seeded change C29b dropped the type filter of the nameless form)
+    nnl = ctx.pick(14, 160)
+    for h in range(nnl):
+        fmt = 'wav' if rng.random() < 0.2 else 'cas'
+        nf = rng.randint(2, 4)
+        used, files, nmem = [], [], 0
+        for i in range(nf):
+            kind = rng.choice('DDABPM')
+            if kind == 'M':
+                nmem += 1
+                if nmem > 2:
+                    kind = 'D'
+            nm = rname(used)
+            used.append(nm)
+            n = rlen(kind)
+            if kind == 'M':
+                n = min(max(n, 1), 1300)
+            files.append((nm, kind, n))
+        plan, pos = [], 0
+        while pos < nf:
+            classes = set(tuple(WANT[files[j][1]]) for j in range(pos, nf))
+            cl = rng.choice(sorted(classes))
+            if rng.random() < 0.6:       # prefer the class whose next file lies farthest ahead: other kinds are passed over
+                cl = max(sorted(classes), key=lambda c: next(j for j in range(pos, nf) if files[j][1] in c))
+            i = next(j for j in range(pos, nf) if files[j][1] in cl)
+            plan.append(i)
+            pos = i + 1
+        play(fmt, files, plan, nameless=1.0)
+    ctx.cov['nameless_sessions'] = nnl
 
-    keep = ('op', 'name', 'type', 'len', 'id', 'ok', 'found', 'skipped', 'pieces')
+    keep = ('op', 'name', 'want', 'type', 'len', 'id', 'ok', 'found', 'skipped', 'pieces')
     verdicts = ctx.validate('Cassette_Trace', [{k: e[k] for k in keep if k in e} for e in events])
     ctx.cov['traces_validated_against_impl'] += len(marks)
     reads = [e for e in events if e['op'] == 'read']
     ctx.cov['files_read_back'] = len(reads)
+    ctx.cov['nameless_reads'] = sum(1 for e in reads if e['name'] == '')
+    ctx.cov['nameless_reads_skipping_other_types'] = sum(1 for e in reads if e['name'] == '' and e['skipped'])
     ctx.cov['files_by_kind'] = {k: sum(1 for e in reads if e['kind'] == k) for k in 'DABPM'}
     ctx.cov['boundary_files_read'] = sum(1 for e in events if e['op'] == 'write' and ((e['type'] == 'D' and (e['len'] + 1) % 255 == 0) or (e['type'] == 'A' and e['len'] % 255 == 2)))
     ctx.cov['boundary_ascii_programs'] = sum(1 for e in events if e['op'] == 'write' and e['type'] == 'A' and e['len'] % 255 == 2)
